@@ -263,11 +263,24 @@ fn ty(rng: &mut Rng, depth: usize, p: &mut Planted) -> String {
     }
 }
 
+/// The queried set. A member may be spelled as a raw identifier, as it is when the receiver declares
+/// `<r#T>` or `<'r#a>`: the same parameter (which members are, depends on the set only).
 fn idents(names: &BTreeSet<String>) -> IdentSet {
-    names.iter().map(|n| syn::Ident::new(n, proc_macro2::Span::call_site())).collect()
+    let sp = proc_macro2::Span::call_site();
+    names.iter().map(|n| if (n.len() + names.len()) % 3 == 0 { syn::Ident::new_raw(n, sp) } else { syn::Ident::new(n, sp) }).collect()
 }
 fn lts(names: &BTreeSet<String>) -> LifetimeSet {
-    names.iter().map(|n| syn::Lifetime::new(n, proc_macro2::Span::call_site())).collect()
+    let sp = proc_macro2::Span::call_site();
+    names
+        .iter()
+        .map(|n| {
+            if (n.len() + names.len()) % 3 == 1 && n != "'static" && n != "'_" {
+                syn::Lifetime { apostrophe: sp, ident: syn::Ident::new_raw(&n[1..], sp) }
+            } else {
+                syn::Lifetime::new(n, sp)
+            }
+        })
+        .collect()
 }
 
 fn expected(planted: &BTreeSet<String>, decl: &BTreeSet<String>, purpose: Purpose, query: &BTreeSet<String>) -> BTreeSet<String> {
@@ -332,8 +345,8 @@ pub fn run_case(case_seed: u64, c: &mut Collector) {
             json!({"case_seed": case_seed, "types": fields.iter().map(|f| f.0.clone()).collect::<Vec<_>>(), "type_query": tq, "lifetime_query": lq, "failure": what}),
         );
     };
-    let names_of = |s: darling::usage::IdentRefSet<'_>| -> BTreeSet<String> { s.into_iter().map(|i| i.to_string()).collect() };
-    let lts_of = |s: darling::usage::LifetimeRefSet<'_>| -> BTreeSet<String> { s.into_iter().map(|i| i.to_string()).collect() };
+    let names_of = |s: darling::usage::IdentRefSet<'_>| -> BTreeSet<String> { s.into_iter().map(|i| i.to_string().replace("r#", "")).collect() };
+    let lts_of = |s: darling::usage::LifetimeRefSet<'_>| -> BTreeSet<String> { s.into_iter().map(|i| i.to_string().replace("r#", "")).collect() };
     for purpose in [Purpose::BoundImpl, Purpose::Declare] {
         let opts: Options = purpose.into();
         let mut union_t = BTreeSet::new();
